@@ -105,6 +105,8 @@ var hostile = []string{"1.2", "true", "~", "null", " leading", "trailing ", "a: 
 	// long values (the encoder folds them onto indented continuation lines) and values with a line break (literal blocks)
 	"firmware build 2021-11-09 for the thermal camera module with extended telemetry and a rather long descriptive name",
 	"two\nlines", "indented\n  second line", "trailing newline\n",
+	// values other YAML dialects read as something else than a string (dates, octal, sexagesimal, merge key)
+	"2020-03-17", "2019-11-4", "2021-06-01 12:30:00", "2001-12-14t21:59:43.10-05:00", "0o17", "190:20:30", "<<", "=", "1_000", "+.inf", ".NaN", "0b101", "y", "n", "on", "off",
 	"averyveryveryveryveryveryveryveryveryveryveryveryveryveryveryveryveryveryveryveryverylongtokenwithoutanyspaces"}
 
 func hdrGen(rng *rand.Rand, i int) hdrInput {
